@@ -6,6 +6,8 @@ mod ctor;
 mod ev;
 mod extract;
 mod overflow;
+#[cfg(feature = "cfg_a")]
+mod serdeh;
 mod payload;
 mod sized;
 mod thin;
@@ -163,6 +165,13 @@ fn main() {
                 usage();
             }
             threads::run_many(args[1].parse().unwrap_or(1), args[2].parse().unwrap_or(2), args[3].parse().unwrap_or(20), &args[4]);
+        }
+        #[cfg(feature = "cfg_a")]
+        "serde" => {
+            if args.len() < 2 {
+                usage();
+            }
+            serdeh::run(&args[1]);
         }
         "overflow" => {
             if args.len() < 3 {
